@@ -105,14 +105,14 @@ package r1cs
 
 // ---- API operations
 //@ contract (*builder).IsZero
-//@   props C05
+//@   props C05 C04
 //@   assigns *builder.cs, *builder.mtBooleans
 //@   requires builder != nil && liveV(i1)
 //@   ensures @iszero denR(builder, result) == (denR(builder, i1) == f0 ? f1 : f0)
 //@   ensures @live liveV(result)
 
 //@ contract (*builder).Inverse
-//@   props C05
+//@   props C05 C04
 //@   assigns *builder.cs
 //@   requires builder != nil && liveV(i1)
 //   a one-term expression on the ONE wire (id 0, value 1) denotes its coefficient
@@ -120,7 +120,7 @@ package r1cs
 //@   ensures @inverse fmul(denR(builder, result), denR(builder, i1)) == f1
 
 //@ contract (*builder).AssertIsBoolean
-//@   props C05
+//@   props C05 C04
 //   (IsBoolean / MarkBoolean sort the terms of the caller's linear expression in place: a write through i1 that
 //   leaves its denotation unchanged)
 //@   assigns *builder.cs, *builder.mtBooleans, i1
@@ -130,20 +130,20 @@ package r1cs
 //@   ensures @bool isBool(denR(builder, i1))
 
 //@ contract (*builder).AssertIsEqual
-//@   props C05
+//@   props C05 C04
 //@   assigns *builder.cs, *builder.mtBooleans
 //@   requires builder != nil && liveV(i1) && liveV(i2)
 //@   ensures @eq denR(builder, i1) == denR(builder, i2)
 
 //@ contract (*builder).And
-//@   props C05
+//@   props C05 C04
 //@   assigns *builder.cs, *builder.mtBooleans
 //@   requires builder != nil && liveV(_a) && liveV(_b)
 //@   ensures @and isBool(denR(builder, _a)) && isBool(denR(builder, _b)) && denR(builder, result) == fmul(denR(builder, _a), denR(builder, _b))
 //@   ensures @live liveV(result)
 
 //@ contract (*builder).Xor
-//@   props C05
+//@   props C05 C04
 //@   assigns *builder.cs, *builder.mtBooleans
 //@   requires builder != nil && liveV(_a) && liveV(_b)
 //   truth tables of a*(1-2b)+b and b*(1-2a)+a over {0,1}
@@ -151,7 +151,7 @@ package r1cs
 //@   ensures @xor isBool(denR(builder, _a)) && isBool(denR(builder, _b)) && denR(builder, result) == (denR(builder, _a) == denR(builder, _b) ? f0 : f1)
 
 //@ contract (*builder).Select
-//@   props C05
+//@   props C05 C04
 //@   assigns *builder.cs, *builder.mtBooleans
 //@   requires builder != nil && liveV(i0) && liveV(i1) && liveV(i2)
 //@   lemma @select-table isBool(denR(builder, i0)) ==> fadd(fmul(denR(builder, i0), fsub(denR(builder, i1), denR(builder, i2))), denR(builder, i2)) == (denR(builder, i0) == f1 ? denR(builder, i1) : denR(builder, i2))
@@ -165,7 +165,7 @@ package r1cs
 //@   ensures allocated(result) && lsum(builder, result) == fmul(old(lsum(builder, v1)), lambda)
 
 //@ contract (*builder).DivUnchecked
-//@   props C05
+//@   props C05 C04
 //@   assigns *builder.cs
 //@   requires builder != nil && liveV(i1) && liveV(i2)
 //   a one-term expression on the ONE wire denotes its coefficient; c * (1/d) * d = c
@@ -174,7 +174,7 @@ package r1cs
 //@   ensures @quotient fmul(denR(builder, result), denR(builder, i2)) == denR(builder, i1)
 
 //@ contract (*builder).Div
-//@   props C05
+//@   props C05 C04
 //@   assigns *builder.cs
 //@   requires builder != nil && liveV(i1) && liveV(i2)
 //@   lemma @const-result isLE(result) && len(as(result, "expr.LinearExpression[E]")) == 1 && as(result, "expr.LinearExpression[E]")[0].VID == 0 ==> denR(builder, result) == as(result, "expr.LinearExpression[E]")[0].Coeff
@@ -185,7 +185,7 @@ package r1cs
 //@   ensures @quotient fmul(denR(builder, result), denR(builder, i2)) == denR(builder, i1)
 
 //@ contract (*builder).Lookup2
-//@   props C05
+//@   props C05 C04
 //@   assigns *builder.cs, *builder.mtBooleans
 //@   requires builder != nil && liveV(b0) && liveV(b1) && liveV(i0) && liveV(i1) && liveV(i2) && liveV(i3)
 //   truth table of (i2-i0)*s1 + ((i3+i0-i2-i1)*s1 + i1 - i0)*s0 + i0 over s0, s1 in {0,1}
@@ -194,7 +194,7 @@ package r1cs
 //@   ensures @lookup denR(builder, result) == (denR(builder, b1) == f1 ? (denR(builder, b0) == f1 ? denR(builder, i3) : denR(builder, i2)) : (denR(builder, b0) == f1 ? denR(builder, i1) : denR(builder, i0)))
 
 //@ contract (*builder).AssertIsDifferent
-//@   props C05
+//@   props C05 C04
 //@   assigns *builder.cs, *builder.mtBooleans
 //@   requires builder != nil && liveV(i1) && liveV(i2)
 //@   ensures @different denR(builder, i1) != denR(builder, i2)
@@ -203,7 +203,7 @@ package r1cs
 // instantiated at this builder by the bridge lemmas; hiR(b, s, i) is the integer the bits s[i:] spell.
 //@ spec func hiR(b Builder, s []Variable, i int) int
 //@ contract (*builder).Cmp
-//@   props C05
+//@   props C05 C04
 //@   assigns *builder.cs, *builder.mtBooleans, i1, i2
 //@   requires builder != nil && liveV(i1) && liveV(i2)
 //@   lemma @bridge den(i1) == denR(builder, i1) && den(i2) == denR(builder, i2)
